@@ -83,3 +83,33 @@ pub fn c03_pyheader<const K: usize>(rank: &[usize], inv: &[u64], kcount: usize, 
     core::mem::forget(h);
     core::mem::forget(oc);
 }
+
+
+/*@@PYHEADERS@@*/
+
+/// k = 4..=7: the binding's header vector is dumped by a NATIVE run of its real
+/// `new(k)` + `get_header()`; the solver decides, for a symbolic column, that the
+/// dumped name is the text of the p-th canonical k-mer.
+pub fn c03_pyheader_dump<const K: usize>(names: &'static [[u8; K]], ocanon: &[u64]) {
+    check!(names.len() == ocanon.len(), "C03: header does not have one name per canonical k-mer");
+    let p = any_usize();
+    assume(p < ocanon.len());
+    if p < names.len() {
+        let name = &names[p];
+        let mut v = 0u64;
+        let mut ok = true;
+        let mut j = 0;
+        while j < K {
+            let c = name[j];
+            if !(c == b'A' || c == b'C' || c == b'G' || c == b'T') {
+                ok = false;
+            }
+            v = v * 4 + (code(c) as u64 & 3);
+            j += 1;
+        }
+        check!(ok, "C03: a header name contains a letter outside ACGT");
+        check!(v == ocanon[p], "C03: header name of a column is not the column's canonical k-mer (column order)");
+    }
+    cover!(p > 0, "req: a column other than the first");
+    cover!(true, "req: end of harness reached");
+}
